@@ -9,6 +9,14 @@ TRUST = [
 ]
 
 CONFIG = {
+    "C10": {
+        "level": "exploration",
+        "gates_of": ["C01"],
+        "assumptions": TRUST + ["invalidity of the edited operation is established with gqlparser on the harness's own union schema",
+                                "only errors of ONE sub-request per operation are injected (the code forwards the first erroring response of a batch; the statement does not clearly demand more)"],
+        "quick": {"tests": [("TestC10", 2500)], "shards": 4, "timeout": 600},
+        "thorough": {"tests": [("TestC10", 30000)], "shards": 16, "timeout": 2400},
+    },
     "C09": {
         "level": "fault_enumeration",
         "gates_of": ["C01"],
